@@ -11,8 +11,9 @@
    at ANY nesting depth and program size: C01_module_correct_partial below is the full statement above on that
    fragment (same output lines; Done with an empty call stack, or the related run-time error after the same output
    prefix); and C01_module_fun_correct_partial for modules `definitions; main` whose functions are called in
-   expression position, call earlier functions (captured) and themselves (`self`, recursion).
-   NOT yet proved: function literals elsewhere than at the start of the module, closures over data variables,
+   expression position, call earlier functions (captured) and themselves (`self`, recursion); and
+   C01_module_top_correct_partial with the definitions at any top-level position of the module.
+   NOT yet proved: function literals inside blocks / functions, closures over data variables,
    calls nested inside larger expressions, first-class function values.
    Those are covered by the T1/T2/T3 correspondences on every run.
 
@@ -24,7 +25,7 @@
    The statement-level agreement is established on every run by the correspondences T1 (compiler ==
    Compile/Compile.v), T2 (interpreter == Vm/Model.v, per instruction) and T3 (run == Lang/Eval.v). *)
 From MS Require Import Vm.Model Verify.Check Verify.Sound Compile.Compile Lang.Eval Compile.ExprBase Compile.ExprSim.
-From MS Require Import Compile.StmtMach Compile.StmtRel Compile.StmtFrag Compile.StmtSim Compile.StmtFun Compile.StmtExamples Compile.StmtFragB.
+From MS Require Import Compile.StmtMach Compile.StmtRel Compile.StmtFrag Compile.StmtSim Compile.StmtFun Compile.StmtMod Compile.StmtExamples Compile.StmtFragB.
 
 Check frames_safe.
 Theorem C01_frames_balanced_partial : forall rc p, checked p ->
@@ -95,6 +96,21 @@ Theorem C01_module_fun_correct_partial : forall (path : str) (FT : ftab) (main :
      vm_outcome_ok (snd (run fuel p)) (snd (fst (execute fuel' (cprogram path p) (s_module_fn path))))).
 Proof. exact module_fun_correct. Qed.
 Print Assumptions C01_module_fun_correct_partial.
+(* ... and with the function definitions at ANY top-level position of the module, between statements of the fragment
+   (`n = 1; k = 0; h = fn(x) {...}; ...; f0 = fn(n) {...}; print f0(3)`): classify splits the module into definitions
+   and statements, mod_ok checks each definition against the functions defined before it (fresh name, fn_ok) and each
+   statement against the functions defined so far *)
+Check module_top_correct.
+Theorem C01_module_top_correct_partial : forall (path : str) (p : source),
+  mod_ok [] [] (classify p) -> ExprBase.small (2 * length (tmodule_code path (classify p)) + 8) ->
+  forall fuel : nat, snd (run fuel p) <> ROFuel ->
+  no_claim (snd (run fuel p)) \/
+  (exists fuel' : nat,
+     fst (fst (execute fuel' (cprogram path p) (s_module_fn path))) = fst (run fuel p) /\
+     vm_outcome_ok (snd (run fuel p)) (snd (fst (execute fuel' (cprogram path p) (s_module_fn path))))).
+Proof. exact module_top_correct. Qed.
+Print Assumptions C01_module_top_correct_partial.
+Check tcall_ok. Check def_rel. Check C01_nv_stage5_interleaved.
 (* the same theorem behind a DECIDABLE test: the check evaluates `in_fragment` (extracted) on every program it
    generates and counts the programs for which this theorem speaks about the code the real compiler emitted (T1 equal) *)
 Check fragment_correct.
@@ -107,7 +123,8 @@ Theorem C01_fragment_correct_partial : forall (path : str) (p : source), in_frag
 Proof. exact fragment_correct. Qed.
 Print Assumptions C01_fragment_correct_partial.
 Check in_fragment_sound.
-Example C01_nv_in_fragment : in_fragment nvp nv_s6 = true /\ in_fragment nvp nv_s4 = true /\ in_fragment nvp nv_s1f = true.
+Example C01_nv_in_fragment : in_fragment nvp nv_s6 = true /\ in_fragment nvp nv_s4 = true /\ in_fragment nvp nv_s1f = true /\
+  in_fragment nvp nv_s7 = true /\ in_fragment nvp nv_s8 = true.
 Proof. vm_compute. repeat split. Qed.
 (* ... and it rejects what is outside: a closure over a data variable *)
 Example C01_nv_not_in_fragment :
